@@ -227,6 +227,26 @@ func runScenario(sc *Scenario, replay []simrt.Decision, record bool) *outcome {
 			return sc.SharedCodec
 		},
 	}
+	if gs := sc.GoStall; gs != nil {
+		cfg.Stall = func(t *simrt.Task, n int, arrival bool) time.Duration {
+			if t.Site < 0 {
+				return 0 // tasks of the harness (producers, application, peer)
+			}
+			h := simrt.Mix(sc.RunSeed, 0x57a11, uint64(t.ID), uint64(n))
+			pm := gs.PerMille
+			if arrival {
+				pm = gs.ArrivalPerMille
+			}
+			if int(h%1000) >= pm {
+				return 0
+			}
+			us := []int{10, 1000, 100000, 2000000}[(h>>20)%4]
+			if gs.MaxUS > 0 && us > gs.MaxUS {
+				us = gs.MaxUS
+			}
+			return time.Duration(us) * time.Microsecond
+		}
+	}
 	if sc.StepCost > 0 {
 		cr := simrt.NewRNG(sc.RunSeed ^ 0xc057)
 		mx := sc.StepCost
